@@ -324,6 +324,7 @@ inline sim::Plan genPlan(uint64_t seed, const std::string &profile, bool thoroug
             if (profile == "C13") o.x = 0;
             o.y = 0;
             if (profile == "C13" || profile == "C14" || profile == "C17") o.y = r.pm(300) ? 3 : 0;
+            if (profile == "C17" && r.pm(250)) o.y = r.pm(500) ? 4 : 5; // full disk / throwing formatter: memory safety only
             if (profile == "C15") o.y = r.pm(700) ? 2 : 3;
             o.a = (int64_t)r.below(4096); o.b = (int64_t)r.below(64);
         } else if ((t -= (unsigned)pPersist) < (unsigned)pReplica) {
